@@ -5,6 +5,8 @@ cd /repo || exit 2
 git diff --quiet || { echo "repo dirty"; exit 2; }
 git apply "$PATCH" || { echo "patch does not apply"; exit 2; }
 for P in "$@"; do
-  (cd /verif && ./check "$P" --no-evidence ${SEED_ONLY:+--only "$SEED_ONLY"} 2>&1 | grep -c "^VIOLATION" | sed "s/^/$P violations: /"; cd /verif && ./check "$P" --no-evidence ${SEED_ONLY:+--only "$SEED_ONLY"} 2>&1 | tail -1)
+  OUT=$(cd /verif && ./check "$P" --no-evidence 2>&1)
+  echo "$OUT" | grep "counterexample" | head -3 | cut -c1-220
+  echo "$P: $(echo "$OUT" | grep -c '^VIOLATION') violations; $(echo "$OUT" | tail -1)"
 done
-git checkout -- . 
+git checkout -- .
